@@ -349,10 +349,18 @@ def gen_wbs(rng, max_tasks=10):
             number(nd['kids'])
     number(roots)
     dirn = rng.choice([1, -1])
+    # half of the cases: dependencies oriented along a RANDOM ranking of the tasks instead, so that one task lists rows
+    # that come later in the file before rows that come earlier (the order inside a predecessor list must survive)
+    rank = list(range(n))
+    rng.shuffle(rank)
+    mixed = rng.random() < 0.5
     for k in range(n):
         if rng.random() < 0.45:
-            cands = [j for j in range(n) if j != k and j not in anc[k] and k not in anc[j]
-                     and (pre[id(nodes[j])] - pre[id(nodes[k])]) * dirn < 0]
+            if mixed:
+                cands = [j for j in range(n) if j != k and j not in anc[k] and k not in anc[j] and rank[j] < rank[k]]
+            else:
+                cands = [j for j in range(n) if j != k and j not in anc[k] and k not in anc[j]
+                         and (pre[id(nodes[j])] - pre[id(nodes[k])]) * dirn < 0]
             rng.shuffle(cands)
             nodes[k]['preds'] = [nodes[j]['id'] for j in cands[:rng.choice([1, 1, 2, 3])]]
     return roots
